@@ -209,6 +209,43 @@ def sec_flavour_symmetry(rep):
                     rep.check(f"C13/flavour-symmetry/kernels/{process}/{kind}/nf={nf}/pto={pto}", case, sy, pre, kind="lemma")
 
 
+def sec_flavour_symmetry_tagged(rep):
+    """(d3) flavour-tagged observables in the massless scheme: every kernel the REAL Combiner
+    collects for F_charm / F_bottom / F_top weights two active quarks of identical charges equally,
+    as long as neither is the tagged quark (whose coupling is the only one switched on)."""
+    import yadism.coefficient_functions as cf
+
+    rep.under_contract(cf.Combiner.collect, cf.Combiner.heavylight_components)
+    sy = H.Sy()
+    pre = [sy.x > 0, sy.x < 1, sy.Q2 > 0] + sy.mass_pre()
+    flav_q = {"charm": 4, "bottom": 5, "top": 6}
+    for process in ("EM", "NC"):
+        for kind in ("F2", "FL", "F3", "g1"):
+            for flavor, hq in flav_q.items():
+                for nf in range(hq, 7):
+                    for pto in (2, 3):
+                        if pto == 3 and kind not in ("F2", "FL", "F3"):
+                            continue
+                        rep.cases += 1
+
+                        def case(sy, process=process, kind=kind, flavor=flavor, hq=hq, nf=nf, pto=pto):
+                            c = dict(process=process, projectile="electron", scheme="ZM-VFNS", nf_ff=3, nf=nf, kind=kind, flavor=flavor, pto=pto, pto_evol=2, fonllparts="full")
+                            cfg = H.cell_configs(sy, c)
+                            ks, _ = H.collect(sy, cfg, kind, flavor, nf, what="collect")
+                            out = [("kernels collected", len(ks) > 0, True)]
+                            for k in ks:
+                                nm = type(k.coeff).__name__
+                                for q in range(1, nf + 1):
+                                    for q2 in range(q + 2, nf + 1, 2):
+                                        if hq in (q, q2):
+                                            continue
+                                        for s_ in (1, -1):
+                                            out.append((f"{nm}[{s_*q}]=[{s_*q2}]", k.partons.get(s_ * q, 0), k.partons.get(s_ * q2, 0)))
+                            return out
+
+                        rep.check(f"C13/flavour-symmetry/tagged/{process}/{kind}_{flavor}/nf={nf}/pto={pto}", case, sy, pre, kind="lemma", max_paths=16)
+
+
 def sec_selfcheck(rep, seed):
     """Canary: the wrong leptonic coupling of canaries/c02 must break positron(P)=electron(-P)."""
     from pvc.core import Report
@@ -238,7 +275,7 @@ def run(rep, tier, seed, only=None):
         "A-np: numpy object-dtype arithmetic is the real reading of float64 arithmetic",
     )
     rep.stub("Combiner: eko nf_default -> enumerated nf (contract: C06)", "CouplingConstants.get_weight -> uninterpreted w (kernel-level lemmas)")
-    secs = [("decoupling", sec_decoupling), ("positron", sec_positron), ("cc", sec_cc_conjugation), ("flavour", sec_flavour_symmetry)]
+    secs = [("decoupling", sec_decoupling), ("positron", sec_positron), ("cc", sec_cc_conjugation), ("flavour", sec_flavour_symmetry), ("tagged", sec_flavour_symmetry_tagged)]
     for nm, f in secs:
         if only and only not in nm:
             continue
